@@ -1,6 +1,8 @@
 pub mod c05;
 pub mod c09;
 pub mod c10;
+pub mod c11;
+pub mod c12;
 pub mod hist;
 
 use crate::harness::Arm;
@@ -11,6 +13,8 @@ pub fn all_arms() -> Vec<Box<dyn Arm>> {
     v.push(Box::new(c05::C05));
     v.push(Box::new(c09::C09));
     v.push(Box::new(c10::C10));
+    v.push(Box::new(c11::C11));
+    v.push(Box::new(c12::C12));
     v
 }
 
